@@ -197,7 +197,8 @@ class UnitValueValidator:
             char_errors[class_name] = self._get_problem_indices(stripped_value, class_name, start_index=start_index)
             if class_valid[class_name] and not char_errors[class_name]:  # We have found a valid class
                 return []
-        index_adj = len(report_as.org_base_tag) - len(original_tag.org_base_tag)
+        # index_offset: where the value starts inside report_as's extension (e.g. after the name of a Def tag).
+        index_adj = len(report_as.org_base_tag) - len(original_tag.org_base_tag) + index_offset
         validation_issues = self.report_value_errors(char_errors, class_valid, report_as, index_adj)
         return validation_issues
 
